@@ -48,6 +48,17 @@ package k8s
 //@   callsite maybeInvalidateCacheForPod requires pod == payload(oldObj, v1.Pod)
 //@   ensures  calls(maybeInvalidateCacheForPod) == 1
 //@   modifies e.p.cache[*], e.p.rw
+// OnDelete: a deleted pod invalidates like an update of it; the informer may deliver the deletion as a tombstone
+// (cache.DeletedFinalStateUnknown, stored by value) carrying the last known state, which is unwrapped.
+//@ func (cacheInvalidationHandler).OnDelete
+//@   requires e.p != nil && e.p.cache != nil
+//@   requires isType(obj, v1.Pod) ==> payload(obj, v1.Pod) != nil
+//@   requires holdsValue(obj, cache.DeletedFinalStateUnknown) && isType(valueIn(obj, cache.DeletedFinalStateUnknown).Obj, v1.Pod) ==> payload(valueIn(obj, cache.DeletedFinalStateUnknown).Obj, v1.Pod) != nil
+//@   callsite maybeInvalidateCacheForPod requires (isType(obj, v1.Pod) ==> pod == payload(obj, v1.Pod)) && (holdsValue(obj, cache.DeletedFinalStateUnknown) ==> pod == payload(valueIn(obj, cache.DeletedFinalStateUnknown).Obj, v1.Pod))
+//@   ensures  [pod] isType(obj, v1.Pod) ==> calls(maybeInvalidateCacheForPod) == 1
+//@   ensures  [tombstone] holdsValue(obj, cache.DeletedFinalStateUnknown) && isType(valueIn(obj, cache.DeletedFinalStateUnknown).Obj, v1.Pod) ==> calls(maybeInvalidateCacheForPod) == 1
+//@   ensures  [other] !isType(obj, v1.Pod) && !holdsValue(obj, cache.DeletedFinalStateUnknown) ==> calls(maybeInvalidateCacheForPod) == 0
+//@   modifies e.p.cache[*], e.p.rw
 //@ func (cacheInvalidationHandler).OnAdd
 //@   ensures  calls(maybeInvalidateCacheForPod) == 0
 
